@@ -91,6 +91,12 @@ def families():
     F.append(("dae x'=-x+z, 0=z-sin(2 pi t) from rest", nDAE(M, lambda t, y, p, w=w2: np.array([-y[0] + y[1], y[1] - np.sin(w * t)]),
                                                              lambda t, y, p: csc_array(np.array([[-1.0, 1.0], [0.0, 1.0]])), {}),
               np.array([0.0, 0.0]), lambda t, w=w2: np.array([xz(t), np.sin(w * t)]), 0.0, 10.0))
+    # at rest with y'(t0) = 0 AND y''(t0) = 0: neither estimate of a first step says anything
+    c2 = -0.5 + 0.5 / (1 + w2 * w2)
+    ex_r2 = lambda t, w=w2: 0.5 - 0.5 * (np.cos(w * t) + w * np.sin(w * t)) / (1 + w * w) + c2 * np.exp(-t)
+    F.append(("y'=-y+(1-cos(2 pi t))/2 from rest", nDAE(csc_array(np.eye(1)), lambda t, y, p, w=w2: -y + 0.5 * (1 - np.cos(w * t)),
+                                                        lambda t, y, p: csc_array(np.array([[-1.0]])), {}),
+              np.array([0.0]), lambda t: np.array([ex_r2(t)]), 0.0, 1.0))
     # autonomous, non-stiff index-1 DAE (the model of the library's own test_dae): x' = -x^3 + z^2/2, 0 = x^2 + z^2 - 2; reference from the
     # reduced ODE x' = -x^3 + 1 - x^2/2 integrated at 1e-13
     from scipy.integrate import solve_ivp
@@ -200,7 +206,7 @@ def run(rep, tier, seed):
                ("ode15s", lambda d, ts, y, o: ode15s(d, ts, y, Opt(**o)))]
     fam = families()
     if tier == "quick":
-        fam = [f for i, f in enumerate(fam) if i in (0, 2, 4, 5, 7, 8, 10, 11, 12, 13)]
+        fam = [f for i, f in enumerate(fam) if i in (0, 2, 4, 5, 7, 8, 10, 11, 12, 13, 14)]
     for name, dae, y0, exact, t0, tend in fam:
         for rtol, atol in tols:
             if name.endswith("from rest"):
